@@ -335,7 +335,7 @@ impl Engine for LexSim {
                 real_components: &["clap_lex::ParsedArg", "clap_lex::ShortFlags", "clap_lex::RawArgs (to reach tokens)"],
                 stub_components: &["reference model: byte offset + first-invalid-byte position; independent number-shape recogniser"],
                 workload_only_clauses: &["mutual consistency of the classifications and long re-assembly are functions of one token (exercised for every probed token, but there is no history in them)", "the 'exhaustively up to a length bound' reading of the quantifier is enumeration and is not attempted"],
-                assumptions: &["Unix OsStr encoding", "std::str::from_utf8 is trusted for the model's UTF-8 boundary", "is_negative_number is compared only on an iterator that has not been advanced (documented precondition) and not for the bare token `-`"],
+                assumptions: &["Unix OsStr encoding", "std::str::from_utf8 is trusted for the model's UTF-8 boundary", "is_negative_number on an advanced iterator is compared with the number shape of the unread part (the behaviour of the unchanged tree; the documentation only says 'ideally call this before doing any iterator')"],
                 abort_is_violation: true,
             },
         }
@@ -1162,6 +1162,15 @@ fn exec_c13(sc: &LexSc, log: &mut Log, out: &mut Outcome, cur_op: &Cell<&'static
                         out.comparisons += 1;
                         if g != e {
                             fail!("classification", "ShortFlags::is_negative_number", "token {}: fresh ShortFlags::is_negative_number = {g}, number shape says {e}", esc(t));
+                        }
+                    } else {
+                        // on an advanced iterator the answer describes what is still unread (the documentation only
+                        // says "ideally call this before"; the answer may not be a stale one from another position)
+                        // (with nothing left to read the unchanged tree answers true; that corner is not asserted)
+                        let e = !ms[i].suffix && m_is_number(&ms[i].r[ms[i].pos..ms[i].vlen]);
+                        out.comparisons += 1;
+                        if g != e && ms[i].pos < ms[i].vlen {
+                            fail!("classification", "ShortFlags::is_negative_number-advanced", "token {} step {si}: is_negative_number on the advanced iterator {i} = {g}, the unread part {} says {e}", esc(t), esc(&ms[i].r[ms[i].pos..]));
                         }
                     }
                 }
